@@ -11,9 +11,16 @@ interfaces), on the real classes and - through `(15 steps)` - on the model:
                                    generateIntrospectionXML(path, {key: object exporting heap[id]...})
                                    mode 0: object with getInterfaces(); mode 1: a DBusObject
                                    subclass (its MRO appends the Properties interface, whose
-                                   twin declaration is the last id of the list)
+                                   twin declaration is the last id of the list); mode 2: as 1, but
+                                   the classes of one scenario form a hierarchy: the class exporting
+                                   [i, j, k, P] adds interface i to the class exporting [j, k, P]
+                                   (the same class object whenever the same list is asked for), so an
+                                   object of a derived class exports what its class and all bases declare
   [3, replace]                     getInterfacesFromXML(last document, replace)
   [4, replace, [event...]]         getInterfacesFromXML(serialised events, replace)
+  [5]                              the client drops every reference it holds to the interface objects
+                                   made so far (declared or returned by a parse); garbage is collected.
+                                   Not a call of the library: the model does not see this step
 
   decl  = [0, name, sig, sig] | [1, name, sig] | [2, name, sig, readable, writeable, emits]
   sig   = [0, 'text'] | [1, type...]      type = code | [0, t] | [1, t...] | [2, k, v]
@@ -34,6 +41,8 @@ self._xml is part of the model there):
                                    lit = [0, name, nargs, nret, sigIn, sigOut] | [1, name, nargs, sig] | property decl
                                    (argument counts already set, objects of another class: duck typing)
 """
+import gc
+import weakref
 import xml.etree.ElementTree as ET
 from xml.sax.saxutils import quoteattr
 
@@ -53,6 +62,16 @@ ASSUMPTIONS = [
     'lists type and access only, so the bool-vs-string representation the parser stores is an observation, not compared',
     'exceptions are compared as Ok/Err only; after a failing parse the scenario ends (knownInterfaces may hold '
     'half-built objects, which is not observed)',
+    'an exported object of a class derived from another exporting class exports the interfaces its class and all '
+    'its bases declare in dbusInterfaces (most derived first), whichever class of the hierarchy was used first '
+    '(step 2, mode 2: the classes of a scenario share base classes)',
+    'the cache rule is also judged by content against a ledger the harness keeps from the property text alone '
+    '(oracle computed in Python, independent of the implementation and of DBusInterface.knownInterfaces): a name '
+    'becomes known locally when an interface is declared without the noRegister keyword or returned by a parse, '
+    'stays known until knownInterfaces.clear(), and a parse without replacement must return for a known name an '
+    'interface showing what the known one shows; whether the client still holds a reference to a known interface '
+    '(step 5 drops them all and runs the collector; the harness then only holds weak references, which make no '
+    'claim on lifetime) is immaterial; the ledger is not kept after a raw-event document',
     'histories on one interface object: every member object handed to addMethod/addSignal/addProperty is a new '
     'object that the caller does not touch afterwards (attribute assignment to a stored Method/Signal/Property '
     'behind the interface\'s back is not modelled); whether self._xml is filled is not observed, only what '
@@ -244,6 +263,114 @@ def scen_no_object(ctx, rng, pdecl):
     return steps, 'no-object'
 
 
+def scen_hierarchy(ctx, rng, pdecl):
+    """Several exported objects whose classes form one hierarchy (a class adds an interface to what its base
+    class exports; siblings share a base), introspected one after the other in a random order - base before
+    derived, derived before base, sibling after sibling - each document parsed back."""
+    k = rng.choice([2, 3, 3, 4])
+    names = rng.sample(IFACE_NAMES[:6], k)
+    steps = [[0, nm, gen_members(rng, True, maxm=3), rng.choice([0, 1, 2])] for nm in names]
+    steps.append([pdecl[0], pdecl[1], pdecl[2], rng.choice([0, 1])])
+    P = k
+    lists = [list(range(j, k)) for j in range(k + 1)]                 # the chain: every suffix, [] = the root class
+    lists += [[j] + list(range(j + 2, k)) for j in range(k - 1)]      # siblings: skip one level
+    chosen = [[]] if rng.random() < 0.3 else []
+    pool = [l for l in lists if l]
+    chosen += rng.sample(pool, min(len(pool), rng.choice([2, 2, 3, 4])))
+    if rng.random() < 0.6:
+        chosen.sort(key=len)                                          # base classes first
+    else:
+        rng.shuffle(chosen)
+    paths = rng.sample(['/', '/a', '/a/b', '/obj', '/a/b/c', '/zz', '/a/bc'], len(chosen))
+    exported = [[p, l + [P]] for p, l in zip(paths, chosen)]
+    for p, l in zip(paths, chosen):
+        steps.append([2, p, exported, 2])
+        steps.append([3, rng.random() < 0.4])
+    return steps, 'class-hierarchy'
+
+
+def scen_drop(ctx, rng, pdecl):
+    """Interfaces become known (declared locally, or learned from a parsed document); the client then drops every
+    reference it holds (the declaring function returned, the proxy was discarded) and later parses a document that
+    defines the same names differently, with or without replacement."""
+    k = rng.choice([1, 1, 2, 3])
+    names = rng.sample(IFACE_NAMES[:6], k)
+    steps = []
+    nid = 0
+    known = set()
+    how = rng.choice(['declared', 'parsed', 'parsed', 'both'])
+    if how in ('declared', 'both'):
+        for nm in names:
+            if how == 'declared' or rng.random() < 0.5:
+                steps.append([0, nm, gen_members(rng, True, maxm=3), 0])
+                nid += 1
+                known.add(nm)
+
+    def export_and_parse(replace, drop_between=False):
+        nonlocal nid
+        ids = []
+        for nm in names:
+            steps.append([0, nm, gen_members(rng, True, maxm=3), rng.choice([1, 2])])
+            ids.append(nid)
+            nid += 1
+        path = rng.choice(['/', '/a', '/a/b'])
+        steps.append([2, path, [[path, ids]], 0])
+        if drop_between:
+            steps.append([5])
+        steps.append([3, replace])
+        for nm in names + STD:
+            if replace or nm not in known:
+                nid += 1
+                known.add(nm)
+
+    if how in ('parsed', 'both'):
+        export_and_parse(rng.random() < 0.3)
+    r = rng.random()
+    if r < 0.8:
+        steps.append([5])
+    if rng.random() < 0.1:
+        steps.append([1])
+        known.clear()
+    export_and_parse(rng.random() < 0.25, drop_between=rng.random() < 0.3)
+    if rng.random() < 0.4:
+        if rng.random() < 0.5:
+            steps.append([5])
+        export_and_parse(rng.random() < 0.3)
+    return steps, 'references-dropped'
+
+
+def small_hierarchy_and_drop(pdecl):
+    """the smallest instances of the two scenario classes above, in every order"""
+    s_, i_, u_ = ord('s'), ord('i'), ord('u')
+    d0 = [0, 'a.b', [[0, 'M', [1, s_], [1]]], 1]
+    d1 = [0, 'a.bc', [[1, 'S', [1, i_]], [2, 'P', [1, u_], True, False, 1]], 1]
+    d2 = [0, 'a.b.c', [[0, 'N', [1], [1, s_, s_]]], 1]
+    twin = [pdecl[0], pdecl[1], pdecl[2], 1]
+    out = []
+    # classes: C(1) exports [a.bc]; C(0,1) derives from it and adds a.b; C(2,1) is its sibling; root C() exports nothing
+    objs = {'/a': [1, 3], '/a/b': [0, 1, 3], '/a/c': [2, 1, 3], '/r': [3]}
+    import itertools
+    for k in (2, 3):
+        for order in itertools.permutations(sorted(objs), k):
+            exported = [[p, objs[p]] for p in order]
+            steps = [d0, d1, d2, twin]
+            for p in order:
+                steps += [[2, p, exported, 2], [3, True]]
+            out.append((steps, 'class-hierarchy'))
+    # an interface becomes known (declared / parsed), the client keeps nothing, a different definition arrives
+    old = [[0, 'get', [1, s_], [1, ord('v')]]]
+    new = [[0, 'get', [1, s_, u_], [1, [0, [2, s_, ord('v')]]]]]
+    for replace in (False, True):
+        for drop in ([[5]], []):
+            out.append(([[0, 'a.b', old, 0]] + drop + [[0, 'a.b', new, 1], [2, '/', [['/', [1]]], 0], [3, replace]],
+                        'references-dropped'))
+            out.append(([[0, 'a.b', old, 1], [2, '/', [['/', [0]]], 0], [3, False]] + drop +
+                        [[0, 'a.b', new, 1], [2, '/', [['/', [5]]], 0], [3, replace], [3, False]], 'references-dropped'))
+            out.append(([[0, 'a.b', old, 1], [2, '/', [['/', [0]]], 0], [3, False],
+                         [0, 'a.b', new, 1], [2, '/', [['/', [5]]], 0]] + drop + [[3, replace]], 'references-dropped'))
+    return out
+
+
 def elem(tag, attrs, children=()):
     out = [[0, tag, [[k, v] for k, v in attrs]]]
     for c in children:
@@ -389,6 +516,13 @@ def gen_cases(ctx):
             yield scen_no_object(ctx, rng, pdecl)
         else:
             yield scen_raw(ctx, rng, pdecl)
+    # exporting objects of a class hierarchy; clients that do not keep what they declared / parsed
+    for c in small_hierarchy_and_drop(pdecl):
+        yield c
+    for _ in range(ctx.n(150, 2500)):
+        yield scen_hierarchy(ctx, rng, pdecl)
+    for _ in range(ctx.n(120, 2500)):
+        yield scen_drop(ctx, rng, pdecl)
     # a few large ones
     for _ in range(ctx.n(5, 50)):
         ds = [[0, 'M%d' % j, gen_sig(rng, 6, 5), gen_sig(rng, 4, 5)] for j in rng.sample(range(40), 12)]
@@ -503,6 +637,12 @@ class Exporter:
         return iter(self.ifs)
 
 
+class Dropped(object):
+    """heap entry of an object the client no longer refers to (step 5): what it showed when it was dropped,
+    and a weak reference (no claim on its lifetime) so that it is recognised if the library hands it out again"""
+    __slots__ = ('ref', 'view', 'pview', 'name')
+
+
 def run_impl(steps):
     """-> (answers, heap views, known view, oracle findings, info)"""
     from txdbus import interface, introspection, objects
@@ -517,10 +657,47 @@ def run_impl(steps):
     doc = None
     doc_ids = None
     snapshot = None
+    classes = {}       # mode 2: tuple of heap ids -> exporting class (one hierarchy per scenario)
+    ledger = {}        # name -> what the interface known locally under that name shows (prop_view), kept by the
+    #                    rule of the property text alone: a registering declaration or a parse makes a name known,
+    #                    a parse without replacement leaves a known name alone, clear() forgets.  None = not tracked
+    #                    any more (after a raw-event document, whose blocks need not be interfaces)
+    out = got = exp = obj = ms = kn = touched = known_before = ifs = cls = None
+
+    def live(i):
+        h = heap[i]
+        return h.ref() if isinstance(h, Dropped) else h
+
+    def ident(o):
+        i = index.get(id(o))
+        if i is None:
+            for j, h in enumerate(heap):
+                if isinstance(h, Dropped) and h.ref() is o:
+                    return j
+        return i
+
+    def view_of(h):
+        if isinstance(h, Dropped):
+            o = h.ref()
+            return h.view if o is None else iface_view(o)
+        return iface_view(h)
+
+    def class_for(ids):
+        c = classes.get(ids)
+        if c is None:
+            if ids:
+                c = type('Exported', (class_for(ids[1:]),), {'dbusInterfaces': [live(ids[0])]})
+            else:
+                c = type('Exported', (objects.DBusObject,), {})
+            classes[ids] = c
+        return c
 
     def dump_world():
-        return ([iface_view(i) for i in heap],
-                sorted([k, index.get(id(v), -1)] for k, v in K.items()))
+        known = []
+        for k, v in list(K.items()):
+            i = ident(v)
+            known.append([k, -1 if i is None else i])
+        return ([view_of(h) for h in heap], sorted(known))
 
     try:
         for st in steps:
@@ -544,8 +721,29 @@ def run_impl(steps):
                 heap.append(obj)
                 info['members'] += len(st[2])
                 answers.append([1, len(heap) - 1])
+                if ledger is not None and st[3] == 0:
+                    ledger[st[1]] = prop_view(obj)
             elif st[0] == 1:
                 K.clear()
+                answers.append([])
+                if ledger is not None:
+                    ledger.clear()
+            elif st[0] == 5:
+                for j, h in enumerate(heap):
+                    if isinstance(h, Dropped):
+                        continue
+                    d = Dropped()
+                    try:
+                        d.ref = weakref.ref(h)
+                    except TypeError:
+                        continue                         # cannot be watched without holding it: it is kept
+                    d.view, d.pview, d.name = iface_view(h), prop_view(h), h.name
+                    index.pop(id(h), None)
+                    heap[j] = d
+                classes.clear()
+                h = d = out = got = exp = obj = ms = kn = touched = known_before = ifs = cls = exported = None
+                gc.collect()
+                info['drops'] = info.get('drops', 0) + 1
                 answers.append([])
             elif st[0] == 2:
                 exported = {}
@@ -556,11 +754,19 @@ def run_impl(steps):
                     answers.append(['no-such-object'])
                     w = dump_world()
                     return answers, w[0], w[1], findings, info
+                if any(live(i) is None for _, kids in st[2] for i in kids):
+                    # the scenario exports an object that it dropped and that nobody kept: not expressible
+                    answers.append(['object-gone'])
+                    w = dump_world()
+                    return answers, w[0], w[1], findings, info
                 for key, kids in st[2]:
-                    ifs = [heap[i] for i in kids]
+                    ifs = [live(i) for i in kids]
                     if st[3] == 1 and kids:
                         cls = type('Exported', (objects.DBusObject,), {'dbusInterfaces': ifs[:-1]})
                         exported[key] = cls('/')
+                    elif st[3] == 2 and kids:
+                        exported[key] = class_for(tuple(kids[:-1]))('/')
+                        info['hierarchy_exports'] = info.get('hierarchy_exports', 0) + (1 if key == st[1] else 0)
                     else:
                         exported[key] = Exporter(ifs)
                     if key == st[1]:
@@ -590,15 +796,18 @@ def run_impl(steps):
                 except Exception:
                     answers.append([0])
                     return answers, snapshot[0], snapshot[1], findings, info
-                preexisting = set(index)
+                was = [ident(o) for o in out]          # heap index before this parse, None = made by it
                 rids = []
                 for o in out:
-                    if id(o) not in index:
-                        index[id(o)] = len(heap)
+                    i = ident(o)
+                    if i is None:
+                        i = index[id(o)] = len(heap)
                         heap.append(o)
-                    rids.append(index[id(o)])
+                    rids.append(i)
                 answers.append([1, rids])
                 info['parses_ok'] += 1
+                if blocks is None:
+                    ledger = None
                 # ---- the property, evaluated on the implementation's own observations ----
                 if blocks is not None:
                     names = [heap[h].name for h in blocks] + STD
@@ -610,6 +819,17 @@ def run_impl(steps):
                     for pos, name in enumerate(names[:len(out)]):
                         got = out[pos]
                         exp = heap[blocks[pos]] if pos < len(blocks) else None
+                        exp_view = None if exp is None else (exp.pview if isinstance(exp, Dropped) else prop_view(exp))
+                        # the cache rule by content, against the harness's own ledger of what is known locally
+                        if ledger is not None:
+                            if not replace and name in ledger:
+                                info['ledger_reuse_checked'] = info.get('ledger_reuse_checked', 0) + 1
+                                if prop_view(got) != ledger[name]:
+                                    findings.append(('interface %r is known locally as %r and no replacement was '
+                                                     'requested, but the parse returned %r'
+                                                     % (name, ledger[name], prop_view(got)), 'cache:known-not-reused'))
+                            else:
+                                ledger[name] = prop_view(got)
                         if not replace and name in kn:
                             key = 'known-reused'
                             if got is not kn[name]:
@@ -617,13 +837,13 @@ def run_impl(steps):
                                                  'another object was returned' % name, 'cache:known-not-reused'))
                         else:
                             key = 'replaced' if name in kn else 'new'
-                            if id(got) in preexisting:
+                            if was[pos] is not None:
                                 findings.append(('interface %r: an existing object was returned although %s'
                                                  % (name, 'replacement was requested' if replace else 'it was not known'),
                                                  'cache:not-replaced'))
-                            elif exp is not None and prop_view(got) != prop_view(exp):
+                            elif exp is not None and prop_view(got) != exp_view:
                                 findings.append(('interface %r recovered from its XML differs from the exported one: '
-                                                 '%r vs %r' % (name, prop_view(got), prop_view(exp)),
+                                                 '%r vs %r' % (name, prop_view(got), exp_view),
                                                  'roundtrip:interface-differs'))
                             kn[name] = got
                             touched[name] = got
@@ -989,17 +1209,54 @@ def evaluate(ctx, cases, res):
         evaluate_histories(ctx, hist, res)
     if not cases:
         return
-    lines = ['(15 %s)' % common.dump(steps) for steps, _ in cases]
+    # step 5 (the client drops its references) is no call of the library: the model runs the other steps
+    lines = ['(15 %s)' % common.dump([st for st in steps if st[0] != 5]) for steps, _ in cases]
     outs = common.run_model(lines)
     shapes = {}
     blocks = {}
     stats = {'parses_ok': 0, 'scenarios_ending_in_error': 0, 'members_declared': 0, 'spec_checked_declarations': 0,
              'declarations_rejected': 0, 'max_type_depth': 0}
+    if any(st[0] == 5 for steps, _ in cases for st in steps):
+        # step 5 runs the collector: set the (large, live) harness data aside so that each run looks at the
+        # scenario's own objects only
+        gc.collect()
+        gc.freeze()
+    try:
+        evaluate_scenarios(cases, outs, res, shapes, blocks, stats)
+    finally:
+        gc.unfreeze()
+    res.extra['scenario_shapes'] = shapes
+    res.extra['interface_blocks_by_cache_state'] = blocks
+    res.extra['input_distribution'] = stats
+    for c in cases[:1] + cases[len(cases) // 2: len(cases) // 2 + 2]:
+        res.sample(c[0])
+
+
+def evaluate_scenarios(cases, outs, res, shapes, blocks, stats):
     for (steps, shape), o in zip(cases, outs):
         if o == [-1]:
             raise RuntimeError('model rejected input %r' % (steps,))
-        m_answers, m_heap, m_known, m_specs = norm_model(o, steps)
+        if any(st[0] == 5 for st in steps):
+            where = [k for k, st in enumerate(steps) if st[0] != 5]
+            m_ans, m_heap, m_known, m_sp = norm_model(o, [steps[k] for k in where])
+            m_specs = {where[k]: v for k, v in m_sp.items()}
+            m_answers, j, ended = [], 0, False
+            for st in steps:
+                if ended:
+                    break
+                if st[0] == 5:
+                    m_answers.append([])
+                elif j < len(m_ans):
+                    m_answers.append(m_ans[j])
+                    ended = m_ans[j] == [0] and st[0] in (3, 4)
+                    j += 1
+                else:
+                    break
+        else:
+            m_answers, m_heap, m_known, m_specs = norm_model(o, steps)
         i_answers, i_heap, i_known, findings, info = run_impl(steps)
+        for k in ('drops', 'hierarchy_exports', 'ledger_reuse_checked'):
+            stats[k] = stats.get(k, 0) + info.get(k, 0)
         case = steps
         shapes[shape] = shapes.get(shape, 0) + 1
         for k, v in info['blocks'].items():
@@ -1053,11 +1310,6 @@ def evaluate(ctx, cases, res):
                         if isinstance(sg, list) and sg and sg[0] == 1:
                             for t in sg[1:]:
                                 stats['max_type_depth'] = max(stats['max_type_depth'], type_depth(t))
-    res.extra['scenario_shapes'] = shapes
-    res.extra['interface_blocks_by_cache_state'] = blocks
-    res.extra['input_distribution'] = stats
-    for c in cases[:1] + cases[len(cases) // 2: len(cases) // 2 + 2]:
-        res.sample(c[0])
 
 
 def run(ctx, res):
@@ -1067,7 +1319,13 @@ def run(ctx, res):
                 'noRegister / cache cleared; generateIntrospectionXML for an exporting object (stub or DBusObject '
                 'subclass) among other exported paths; getInterfacesFromXML once or twice with both replace flags; '
                 're-export of parsed objects; plus raw element-event documents with deviations (stray/nested members, '
-                'missing attributes, odd access/direction/annotation values) and an exhaustive small block (access x '
+                'missing attributes, odd access/direction/annotation values); scenarios exporting several objects whose '
+                'classes form one hierarchy (derived class adds an interface; siblings share a base; root class with '
+                'none), introspected and parsed one after the other in every small and random orders of first use; '
+                'scenarios in which names become known (declared or parsed), the client drops every reference it holds '
+                '(collector run) and a document defining the same names differently is parsed with or without '
+                'replacement - judged by content against a ledger of known definitions kept from the property text; '
+                'and an exhaustive small block (access x '
                 'notification x known x replace; every type of depth <= 1). Compared per step: Ok/Err, object '
                 'identities (creation index), element events, then every object\'s content and knownInterfaces. '
                 'non-trivial = at least one successful parse and one declared member; distinct by hash. '
